@@ -466,6 +466,52 @@ def extract_flags():
     src = inspect.getsource(dm.Manager._send_ping_reset_timer)
     flags["ping_timer_uses_delay"] = ".delay(" in src
     flags["ping_timer_uses_reset"] = ".reset(" in src
+    # C17: the discipline of the ping-timer handle `Manager._timer` (None / a pending DelayedCall / one that has
+    # already fired).  Does the expiry callback clear the handle?  Which of its three users ask `.active()` before
+    # touching it (`.delay()` / `.cancel()` raise AlreadyCalled on a DelayedCall that has fired)?
+    def _timer_use_guarded(func, meth):
+        """every `self._timer.<meth>()` in `func` sits under an `if` whose test mentions `_timer.active()`"""
+        tree = ast.parse(textwrap.dedent(inspect.getsource(func)))
+        uses, guarded = 0, 0
+
+        def walk(node, under):
+            nonlocal uses, guarded
+            if isinstance(node, ast.If):
+                u = under or ("_timer.active()" in ast.unparse(node.test))
+                for ch in node.body:
+                    walk(ch, u)
+                for ch in node.orelse:
+                    walk(ch, under)
+                return
+            if isinstance(node, ast.Call) and _call_name(node) == "_timer." + meth:
+                uses += 1
+                guarded += 1 if under else 0
+            for ch in ast.iter_child_nodes(node):
+                walk(ch, under)
+        walk(tree, False)
+        return uses > 0 and uses == guarded
+
+    def _expiry_clears_handle():
+        fn = ast.parse(textwrap.dedent(inspect.getsource(dm.Manager._send_ping_reset_timer))).body[0]
+        for node in ast.walk(fn):
+            if isinstance(node, ast.Call) and _call_name(node) == "_reactor.callLater" and len(node.args) >= 2:
+                cb = node.args[1]
+                body = None
+                if isinstance(cb, ast.Name):        # a nested function
+                    for d in ast.walk(fn):
+                        if isinstance(d, ast.FunctionDef) and d.name == cb.id:
+                            body = d
+                elif isinstance(cb, ast.Attribute) and hasattr(dm.Manager, cb.attr):   # a method
+                    body = ast.parse(textwrap.dedent(inspect.getsource(getattr(dm.Manager, cb.attr)))).body[0]
+                if body is None:
+                    return False
+                return any(isinstance(n, ast.Assign) and ast.unparse(n.targets[0]) == "self._timer"
+                           and ast.unparse(n.value) == "None" for n in ast.walk(body))
+        return False
+    flags["timer_expiry_clears_handle"] = _expiry_clears_handle()
+    flags["ping_timer_checks_active"] = _timer_use_guarded(dm.Manager._send_ping_reset_timer, "delay")
+    flags["stop_using_checks_active"] = _timer_use_guarded(dm.Manager._stop_using_connection, "cancel")
+    flags["abandon_checks_active"] = _timer_use_guarded(dm.Manager.__dict__["abandon_connection"].method, "cancel")
     # C16: Outbound.send_if_connected (un-queued Ping/Pong/Ack) is guarded by exactly `if self._connection:`
     # (in particular not by the flow-control flag `_paused`)
     from wormhole._dilation import outbound as dout
@@ -497,6 +543,27 @@ def extract_flags():
                    and any(isinstance(x, ast.Attribute) and x.attr == attr for x in n.targets))
     flags["choose_role_seeds_subchannel_id"] = (_assigns(vars(dm.Manager)["choose_role"], "_next_subchannel_id") == 2
                                                 and _assigns(vars(dm.Manager)["allocate_subchannel_id"], "_next_subchannel_id") == 0)
+    # C13: records parked between the Leader's KCM and select() are drained oldest first
+    # (`while q: r = q.pop(0); manager.got_record(r)`), and only __attrs_post_init__/update_ack_watermark ever
+    # assign Inbound._highest_inbound_acked (in particular stop_using_connection keeps it)
+    from wormhole._dilation import connection as dconn, inbound as dinb
+    piq = vars(dconn.DilatedConnectionProtocol)["process_inbound_queue"]
+    t = ast.parse(textwrap.dedent(inspect.getsource(getattr(piq, "method", piq))))
+    pops = [n for n in ast.walk(t) if isinstance(n, ast.Call) and isinstance(n.func, ast.Attribute) and n.func.attr == "pop"]
+    front = [n for n in pops if len(n.args) == 1 and isinstance(n.args[0], ast.Constant) and n.args[0].value == 0
+             and "_inbound_record_queue" in ast.dump(n.func.value)]
+    other = [n for n in ast.walk(t) if (isinstance(n, ast.Call) and _call_name(n).split(".")[-1] in ("reversed", "reverse", "popleft"))
+             or isinstance(n, ast.Slice)]
+    flags["parked_queue_is_fifo"] = len(pops) == 1 and len(front) == 1 and not other
+    assigners = []
+    for name, member in vars(dinb.Inbound).items():
+        if inspect.isfunction(member):
+            tt = ast.parse(textwrap.dedent(inspect.getsource(member)))
+            for n in ast.walk(tt):
+                tg = n.targets if isinstance(n, ast.Assign) else [n.target] if isinstance(n, (ast.AugAssign, ast.AnnAssign)) else []
+                if any(isinstance(x, ast.Attribute) and x.attr == "_highest_inbound_acked" for x in tg):
+                    assigners.append(name)
+    flags["stop_using_connection_keeps_watermark"] = sorted(assigners) == ["__attrs_post_init__", "update_ack_watermark"]
     return flags
 
 
